@@ -16,6 +16,7 @@ TREES = {
     'twice': {'d/main.ds': [None, ('a.ds', 'a.ds')], 'd/a.ds': [None]},
     'absolute': {'d/main.ds': [('/abs/x.ds',), None], '/abs/x.ds': [None, None]},
     'missing': {'d/main.ds': [None, ('nope.ds',), None]},
+    'missing-nested': {'d/main.ds': [None, ('a.ds',), None], 'd/a.ds': [None, ('e/b.ds',)], 'd/e/b.ds': [('gone.ds',), None]},
     'last+up': {'d/main.ds': [None, ('e/c.ds',)], 'd/e/c.ds': [('../a.ds',), None], 'd/a.ds': [None]},
     'first,subdir-then-sibling': {'d/main.ds': [('e/c.ds', 'a.ds'), None], 'd/e/c.ds': [None], 'd/a.ds': [None]},
     'depth3': {'m.ds': [('x/a.ds',), None], 'x/a.ds': [None, ('y/b.ds',)], 'x/y/b.ds': [('c.ds',)], 'x/y/c.ds': [None]},
@@ -177,7 +178,9 @@ def replayer(v):
     if err_ref[0]:
         if out.get('ok'): return (True, 'native accepted, reference fails with %r' % (err_ref[0],))
         er = out['error']
-        if err_ref[0][0] == 'ErrorReadingFile': return (er['kind'] != 'ErrorReadingFile', 'native %r' % er)
+        if err_ref[0][0] == 'ErrorReadingFile':
+            named = posixpath.normpath(er.get('message') or '')
+            return (er['kind'] != 'ErrorReadingFile' or named != posixpath.normpath(err_ref[0][1]), 'native %r, reference: unreadable file %r' % (er, err_ref[0][1]))
         return (er['kind'] != err_ref[0][0] or er['line'] != err_ref[0][1] or posixpath.normpath(er['source'] or '') != err_ref[0][2], 'native error %r, reference %r' % (er, err_ref[0]))
     if not out.get('ok'): return (True, 'native failed %r, reference parses' % (out.get('error'),))
     got = out['instructions']
@@ -230,7 +233,9 @@ def job_include_lemmas(ctx, jr):
             meta = meta_new(e.fresh_int('meta.line', 1, 99), mk_str(src) if src is not None else None)
             canon_ok = e.fresh_bool('canonicalize.ok'); canon_to = mk_str('/real/p.ds')
             pk = e.fresh_int('parse_file.kind', 0, 1); got = arb_instrs(e, 'included'); eline = e.fresh_int('err.line', 1, 99)
-            errv = E('types::error::ScriptError', ek, {ek: [meta_new(eline)]})
+            # the error of the included file: a parse error at some line, or an unreadable file further down (any path)
+            kerr = names.index('ErrorReadingFile'); ekind = e.fresh_bool('err.is_reading'); epath = H.sym_str(e, 'err.path', 4)
+            errv = E('types::error::ScriptError', zite(ekind, kerr, ek), {ek: [meta_new(eline)], kerr: [epath, some(Opaque('FsIOError'))]})
             calls = {'canon': [], 'parse': []}
 
             def h_canon(eng, st1, a, callee):
@@ -271,8 +276,8 @@ def job_include_lemmas(ctx, jr):
                             'the instructions of the included file are appended, in order and unchanged, to what was collected'))
             for rs, rv in fr.returns(exits):
                 obs.append((zand(rs.g, znot(more)), zand(zeq(rv.d, 0), deep_eq(rv.p[0][0], IV)) if 0 in rv.p else False, 'end: exactly the collected instructions'))
-                obs.append((zand(rs.g, more, pk == 1), zand(zeq(rv.d, 1), zeq(rv.p[1][0].d, ek), zeq(rv.p[1][0].p[ek][0].f[0].p[1][0], eline)) if 1 in rv.p and ek in rv.p[1][0].p else False,
-                            'an error of the included file is passed on unchanged'))
+                obs.append((zand(rs.g, more, pk == 1), zand(zeq(rv.d, 1), deep_eq(rv.p[1][0], errv)) if 1 in rv.p else False,
+                            'an error of the included file (a parse error with its line, or an unreadable file with its path) is passed on unchanged'))
             for g, cnd, msg in obs: e.obligations.append(Obligation(g, cnd, 'C14 include-loop lemma (%s includes %s): %s' % (src, written, msg), 'assert', 'oracle'))
             jr.symex_time += time.time() - t0
 
